@@ -395,6 +395,8 @@ where
         operator: O,
         operands: (&[Borrowed<M::Edge>], &[u32]),
     ) -> Option<([M::Edge; E], [u32; N])> {
+        #[cfg(feature = "oxidd_verif")]
+        oxidd_core::util::verif::yield_point(8);
         let total_operands = operands.0.len() + operands.1.len();
         if total_operands == 0
             || total_operands + (N + E) > ENTRY_CAP
@@ -418,6 +420,8 @@ where
         operands: (&[Borrowed<M::Edge>], &[u32]),
         values: (&[Borrowed<M::Edge>], &[u32]),
     ) {
+        #[cfg(feature = "oxidd_verif")]
+        oxidd_core::util::verif::yield_point(9);
         let total_operands = operands.0.len() + operands.1.len();
         if total_operands == 0
             || total_operands + (values.0.len() + values.1.len()) > ENTRY_CAP
@@ -450,6 +454,8 @@ where
         // FIXME: We should probably do something smarter than clearing the
         // entire cache.
         for entry in &*self.0 {
+            #[cfg(feature = "oxidd_verif")]
+            oxidd_core::util::verif::yield_point(10);
             let mut entry = entry.lock();
             entry.clear();
             // Don't unlock!
